@@ -304,7 +304,7 @@ class C24:
     assumptions = ['the clock is virtual (clock_gettime interposed in the executor); Schedule::test is sampled every 60 s (quick: 3 weeks) with the state threaded '
                    'exactly as Session::activation_service does, and also statelessly as the login schedule test does',
                    'end time > start time (Configuration::create_schedule rejects anything else)']
-    rule = ('Schedules: start/end time of day (end > start), utc offset -720..+840 min, daily or weekly with all 49 (start day, end day) pairs incl. equal and '
+    rule = ('Schedules: start/end time of day (end > start when loaded from configuration XML, any end time for directly constructed ones), utc offset -720..+840 min, daily or weekly with all 49 (start day, end day) pairs incl. equal and '
             'wrapping; built directly and through Configuration::create_login_schedule from generated XML attributes (end_day omitted => defaults). '
             'The virtual clock is stepped by 60 s over 3 weeks (+ a 1..59 s phase) from a generated origin. Oracle: daily active <=> start <= local time of day <= end; '
             'weekly active <=> local instant inside [start day@start, end day@end] week-cyclically, at every sampled instant, for the threaded state and for '
@@ -359,14 +359,20 @@ class C24:
         return None
 
     def strategy(self):
-        def mk(start, length, off, weekly, sd, ed, origin, phase, viaxml, omit_end):
+        def mk(start, length, off, weekly, sd, ed, origin, phase, viaxml, omit_end, free_end):
             end = min(86399, start + length)
             if end <= start:
                 start, end = 0, max(1, length % 86399)
+            if free_end is not None and not viaxml:
+                # a Schedule object built directly may carry any end time, also one before the start time: a weekly window then runs
+                # from the start day/time round the week to the end day/time (same day: all week except the gap), a daily one is empty.
+                # (the configuration loader refuses end <= start, so this class exists only for directly constructed schedules)
+                end = free_end
             return {'start': start, 'end': end, 'off': off, 'sd': sd if weekly else -1, 'ed': ed if weekly else -1,
                     'origin': origin * 60 + phase, 'xml': viaxml, 'omit_end': omit_end and weekly}
         return st.builds(mk, st.integers(0, 86398), st.integers(1, 86399), st.one_of(st.just(0), st.integers(-720, 840), st.sampled_from([-720, 840, 60, -300, 330])),
-                         st.booleans(), st.integers(0, 6), st.integers(0, 6), st.integers(2880, 60 * 24 * 365 * 40), st.integers(0, 59), st.booleans(), st.booleans())
+                         st.booleans(), st.integers(0, 6), st.integers(0, 6), st.integers(2880, 60 * 24 * 365 * 40), st.integers(0, 59), st.booleans(), st.booleans(),
+                         st.one_of(st.none(), st.none(), st.integers(0, 86399)))
 
     def run(self, case, ex):
         if 'dow' in case:
@@ -411,7 +417,7 @@ class C24:
                         local.strftime('%a %Y-%m-%d %H:%M:%S'), 'step %d' % i, mode, 'active' if got else 'inactive', 'active' if want else 'inactive'))
         weekly_edge = sd >= 0 and (sd == ed or sd > ed) and crossed
         return {'nontrivial': weekly_edge, 'classes': ['weekly' if sd >= 0 else 'daily'] + (['equal_days'] if sd >= 0 and sd == ed else []) +
-                (['wrapping'] if sd > ed >= 0 else []) + (['via_xml'] if case['xml'] else []),
+                (['wrapping'] if sd > ed >= 0 else []) + (['via_xml'] if case['xml'] else []) + (['end_before_start'] if case['end'] < case['start'] else []),
                 'key': case, 'sample': dict(case)}
 
 
